@@ -201,6 +201,12 @@ class Dataset(AbstractDataset, dict, OpMixin, GetSetDelAttrMixin):
 
         # Check dimensions
         # make sure axes match those of the dataset
+        # check all axes before touching the dataset, so that a rejected array leaves it unchanged
+        for newaxis in val.axes:
+            if newaxis.name in self.dims and not newaxis == self.axes[newaxis.name]:
+                raise ValueError("axes values do not match, align data first.\
+                        \nDataset: {}, \nGot: {}".format(self.axes[newaxis.name], newaxis))
+
         for i, newaxis in enumerate(val.axes):
 
             # Check dimensions if already existing axis
